@@ -319,6 +319,9 @@ func report(vdir, prop, tier string, seed int, results []*engine.UnitResult, t0 
 				}
 			}
 			if wasProved {
+				if os.Getenv("NRIVERIF_DEBUG") != "" {
+					fmt.Fprintln(os.Stderr, r.Err.Error())
+				}
 				o := &engine.Obligation{Name: r.Unit + "#binding", Kind: "binding", Desc: "the contract no longer applies to the code: " + firstLine(r.Err.Error()), Pos: r.Pos, Status: "unbound"}
 				violations = append(violations, writeViolation(vdir, prop, o, "contract of a previously verified function cannot be applied to the changed code"))
 				continue
